@@ -8,6 +8,7 @@ is re-initialised from the implementation's dump (they are listed as oracle_only
 from __future__ import annotations
 
 import json
+from fractions import Fraction
 import logging
 
 import canon
@@ -88,6 +89,14 @@ def run_trace(rng, spec, nops, kinds=None, oracles=("xref", "sync", "ctx"), extr
             # remove_reactions([r], remove_orphans=False) of a reaction of the model: Core.removeRxn
             modelled = True
             line_op = {"op": "rm_rxn", "r": op["rs"][0]}
+        if op["op"] == "add_rxns" and len(op["rxns"]) == 1 and not op["rxns"][0]["rule"]:
+            # add_reactions([R]) with a reaction over metabolites of the model, non-zero coefficients, no rule: Core.addRxn
+            r0 = op["rxns"][0]
+            mids = [x for x, _ in r0["st"]]
+            if r0["id"] in UNIV_R and len(set(mids)) == len(mids) and all(x in ex.model.metabolites for x in mids) \
+                    and all(Fraction(c) != 0 for _, c in r0["st"]):
+                modelled = True
+                line_op = {"op": "add_rxn", "r": r0["id"], "lb": r0["lb"], "ub": r0["ub"], "st": [[x, c] for x, c in r0["st"]]}
         err = ex.apply(op)
         probs = []
         try:
